@@ -34,6 +34,7 @@ type Frame struct {
 	retInstr ssa.Value // the call instruction in the parent (nil for go/defer)
 	contract *FuncContract
 	loops    *loopInfo
+	loopFrames map[*ssa.BasicBlock]*loopFrame
 	params   []Val
 	freeVars []Val
 	isGo     bool
@@ -57,6 +58,12 @@ func (f *Frame) clone() *Frame {
 	n.active = make(map[*ssa.BasicBlock]bool, len(f.active))
 	for k, v := range f.active {
 		n.active[k] = v
+	}
+	if f.loopFrames != nil {
+		n.loopFrames = make(map[*ssa.BasicBlock]*loopFrame, len(f.loopFrames))
+		for k, v := range f.loopFrames {
+			n.loopFrames[k] = v
+		}
 	}
 	n.parent = f.parent.clone()
 	return &n
@@ -651,6 +658,7 @@ func (x *Exec) jump(st *State, fr *Frame, from, to *ssa.BasicBlock) {
 		lc := x.loopContractFor(fr, n)
 		if fr.active[to] {
 			// back edge: invariant must be preserved; path ends
+			x.checkLoopFrame(st, fr, to, n)
 			x.checkInvariants(st, fr, lc, n, "inv-keep", to)
 			x.countPath()
 			return
@@ -1269,9 +1277,19 @@ func headerPos(b *ssa.BasicBlock) token.Pos {
 
 func blockComment(b *ssa.BasicBlock) string { return b.Comment }
 
+// loopFrame remembers the heap at a loop head when the loop declares its own assigns clause.
+type loopFrame struct {
+	head    map[string]*T
+	alloc   *T
+	locs    []Loc
+	names   []string
+	sorts   map[string]Sort
+}
+
 // havocLoop forgets everything the loop body may modify.
 func (x *Exec) havocLoop(st *State, fr *Frame, hdr *ssa.BasicBlock) {
 	ms := x.prog.modSetOfBlocks(fr.fn, fr.loops.body[hdr], x)
+	lc := x.loopContractFor(fr, fr.loops.ordinal[hdr])
 	if ms.all {
 		st.havocAllHeap("loop body calls code without a frame")
 	} else {
@@ -1280,14 +1298,28 @@ func (x *Exec) havocLoop(st *State, fr *Frame, hdr *ssa.BasicBlock) {
 			names = append(names, n)
 		}
 		sort.Strings(names)
-		for _, n := range names {
-			if _, ok := st.Heap[n]; ok {
-				st.havocHeap(n)
-			} else if strings.HasPrefix(n, "G_") || true {
-				// not yet materialised on this path: materialise entry symbol then havoc so later reads see a fresh version
-				if srt, ok := st.HeapS[n]; ok {
-					st.Heap[n] = st.X.fresh(n, srt)
+		var lf *loopFrame
+		var assigns []string
+		useFrame := false
+		var env *Env
+		if lc != nil && lc.HasAssigns {
+			assigns, useFrame = lc.Assigns, true
+			env = x.envFor(st, fr)
+		} else if fr.parent == nil && fr.contract != nil && fr.contract.HasAssigns && !containsStr(fr.contract.Assigns, "heap") {
+			// a loop without its own frame inherits the function's assigns clause (locations of the entry state)
+			assigns, useFrame = fr.contract.Assigns, true
+			env = x.envFor(x.entry, fr)
+			env.st = x.entry
+		}
+		if useFrame {
+			lf = &loopFrame{head: map[string]*T{}, names: names, sorts: ms.sorts}
+			for _, ls := range assigns {
+				l, err := x.resolveLoc(env, ls)
+				if err != nil {
+					x.errorf("loop assigns: %v", err)
+					continue
 				}
+				lf.locs = append(lf.locs, l)
 			}
 		}
 		if ms.allocs {
@@ -1296,6 +1328,33 @@ func (x *Exec) havocLoop(st *State, fr *Frame, hdr *ssa.BasicBlock) {
 			r := Sym("r!a", SInt)
 			st.Assume(Forall([]*T{r}, Implies(Select(old, r), Select(nw, r))))
 			st.Heap["Alloc"] = nw
+		}
+		if lf != nil {
+			// precise havoc: only the declared locations; the rest is checked unchanged at every back edge
+			for _, n := range names {
+				st.heapGet(n, ms.sorts[n])
+			}
+			for _, l := range lf.locs {
+				x.havocLoc(st, l)
+			}
+			for _, n := range names {
+				lf.head[n] = st.Heap[n]
+			}
+			lf.alloc = st.heapGet("Alloc", ArrSort(SInt, SBool))
+			if fr.loopFrames == nil {
+				fr.loopFrames = map[*ssa.BasicBlock]*loopFrame{}
+			}
+			fr.loopFrames[hdr] = lf
+		} else {
+			for _, n := range names {
+				if n == "Alloc" {
+					continue
+				}
+				st.HeapS[n] = ms.sorts[n]
+				st.Heap[n] = st.X.fresh(n, ms.sorts[n])
+				delete(st.AsOf, n)
+				st.AsOf[n] = st.Heap["Alloc"]
+			}
 		}
 	}
 	// local cells assigned in the loop (in this frame and, for closures, captured boxes are heap)
@@ -1310,15 +1369,17 @@ func (x *Exec) havocLoop(st *State, fr *Frame, hdr *ssa.BasicBlock) {
 			f = f.parent
 		}
 	}
-	// ghost variables are havocked too when they are assigned by hooks inside the loop: conservatively all function-level ghosts
-	if fr.contract != nil {
-		for _, g := range fr.contract.Ghosts {
-			if v, ok := st.Ghost[g.Name]; ok && x.ghostAssignedInHooks(fr.contract, g.Name) {
+	// ghost variables assigned by hooks that can fire inside the loop body
+	if top := x.topFrame(fr); top.contract != nil {
+		fired := x.hooksFiringIn(fr, hdr)
+		for _, g := range top.contract.Ghosts {
+			if v, ok := st.Ghost[g.Name]; ok && fired[g.Name] {
 				nv := Val{Typ: v.Typ}
 				for _, c := range v.C {
 					nv.C = append(nv.C, st.X.fresh("ghost_"+g.Name, c.S))
 				}
 				st.Ghost[g.Name] = nv
+				st.assumeTypeInv(nv)
 			}
 		}
 	}
@@ -1336,6 +1397,142 @@ func (x *Exec) havocLoop(st *State, fr *Frame, hdr *ssa.BasicBlock) {
 			}
 		}
 	}
+}
+
+// checkLoopFrame: at a back edge, everything outside the loop's declared assigns is as it was at the loop head.
+func (x *Exec) checkLoopFrame(st *State, fr *Frame, hdr *ssa.BasicBlock, n int) {
+	lf := fr.loopFrames[hdr]
+	if lf == nil {
+		return
+	}
+	for _, name := range lf.names {
+		if name == "Alloc" || name == "Held" || strings.HasPrefix(name, "Ch") {
+			continue
+		}
+		cur, ok := st.Heap[name]
+		if !ok {
+			continue
+		}
+		head := lf.head[name]
+		if head == nil || cur.String() == head.String() {
+			continue
+		}
+		var goal *T
+		if !cur.S.IsArray() || strings.HasPrefix(name, "G_") {
+			whole := false
+			for _, l := range lf.locs {
+				for _, a := range l.Arrays {
+					if a == name && l.Ref == nil {
+						whole = true
+					}
+				}
+			}
+			if whole {
+				continue
+			}
+			goal = Eq(cur, head)
+		} else {
+			r := Sym("r!lf", SInt)
+			conds := []*T{Select(lf.alloc, r)}
+			skip := false
+			for _, l := range lf.locs {
+				for _, a := range l.Arrays {
+					if a != name {
+						continue
+					}
+					if l.Ref == nil {
+						skip = true
+					} else {
+						conds = append(conds, Ne(r, l.Ref))
+					}
+				}
+			}
+			if skip {
+				continue
+			}
+			goal = Forall([]*T{r}, Implies(And(conds...), Eq(Select(cur, r), Select(head, r))))
+		}
+		st.oblige("loopframe", fmt.Sprintf("L%d:%s", n, name), goal, hdr.Instrs[0].Pos(), "loop changes only its declared locations in "+name, x.safetyProps())
+	}
+}
+
+// hooksFiringIn returns the ghost names assigned by hooks whose events can occur in the loop body.
+func (x *Exec) hooksFiringIn(fr *Frame, hdr *ssa.BasicBlock) map[string]bool {
+	out := map[string]bool{}
+	fc := x.contract
+	if fc == nil {
+		return out
+	}
+	mark := func(kind, key string, any bool) {
+		for _, h := range fc.Hooks {
+			if any || (h.Kind == kind && x.matchKey(h.Pattern, key)) {
+				for _, d := range h.Dos {
+					n := d.Name
+					if i := strings.Index(n, "["); i > 0 {
+						n = n[:i]
+					}
+					out[n] = true
+				}
+			}
+		}
+	}
+	for _, b := range fr.fn.Blocks {
+		if !fr.loops.body[hdr][b] {
+			continue
+		}
+		for _, ins := range b.Instrs {
+			switch n := ins.(type) {
+			case ssa.CallInstruction:
+				c := n.Common()
+				kind := "call"
+				if _, ok := ins.(*ssa.Go); ok {
+					kind = "go"
+				}
+				if bi, ok := c.Value.(*ssa.Builtin); ok {
+					if bi.Name() == "close" {
+						mark("close", "", false)
+					}
+					continue
+				}
+				if c.IsInvoke() {
+					mark(kind, shortenKey(c.Method.FullName()), false)
+				} else if f := c.StaticCallee(); f != nil {
+					mark(kind, shortenKey(f.String()), false)
+					if x.prog.isRepoFn(f) && len(f.Blocks) > 0 {
+						if cf := x.prog.contractFor(f); cf == nil || cf.Flags["inline"] {
+							mark("", "", true) // inlined code may fire any hook
+						}
+					}
+				} else {
+					mark("", "", true)
+				}
+			case *ssa.Send:
+				mark("send", x.chanName(n.Chan), false)
+			case *ssa.Select:
+				for _, s2 := range n.States {
+					if s2.Dir == types.SendOnly {
+						mark("send", x.chanName(s2.Chan), false)
+					} else {
+						mark("recv", x.chanName(s2.Chan), false)
+					}
+				}
+			case *ssa.UnOp:
+				if n.Op == token.ARROW {
+					mark("recv", x.chanName(n.X), false)
+				}
+			}
+		}
+	}
+	return out
+}
+
+func containsStr(l []string, s string) bool {
+	for _, x := range l {
+		if strings.TrimSpace(x) == s {
+			return true
+		}
+	}
+	return false
 }
 
 func (x *Exec) ghostAssignedInHooks(fc *FuncContract, name string) bool {
